@@ -19,6 +19,7 @@ mod scen_hist;
 mod scen_hostile;
 mod scen_life;
 mod scen_misc;
+mod scen_sparse;
 mod scen_spill;
 mod scen_stream;
 mod scen_write;
